@@ -71,7 +71,20 @@ CONSTANTS Cfgs,     \* sequence of [K, nr, nt, ns, nte, jp, amps] - antenna / st
           VLo, VHi, \* capacity-vector numbers explored by this run (VLo > VHi: none)
           Lo, Hi,   \* case / chain numbers explored by this run
           Seed,     \* seed of the in-spec pseudo-random stream
-          Dev       \* [name |-> BOOLEAN]
+          DevTry    \* set of [name, cfgs, chains, hi]: the deviations this run tries (each in its own initial state) and the
+                    \* configurations / chain configurations on which each is tried; {} for the runs of the intended design
+
+(* The active deviation is a VARIABLE fixed by the initial state ("none" = the intended design), so that ONE TLC run
+   (with -continue) can refute every deviation: each must produce a violated invariant in a behaviour whose dv is its name. *)
+VARIABLE dv
+DevNames == {"OwnStreamNotSubtracted", "NoiseNotFiltered", "ExtIntPowerIgnored", "JpRowsOfOtherUser", "PathlossIgnored",
+             "ConjMissing", "SolverScalesByP", "ListPrecodersScaledAlongStreams", "PowerNoneKeepsCaches",
+             "PlExpansionReusedOnEqualShape", "SolverIgnoresExtInt"}
+Dev == [nm \in DevNames |-> dv = nm]
+DevRec == CHOOSE d \in DevTry : d.name = dv
+CfgOk(ci)   == IF dv = "none" THEN TRUE ELSE ci \in DevRec.cfgs
+NumOk(n)    == IF dv = "none" THEN TRUE ELSE n <= DevRec.hi
+ChainOk(hi) == IF dv = "none" THEN TRUE ELSE hi \in DevRec.chains
 
 (* ------------------------------------- small helpers ------------------------------------------- *)
 RECURSIVE SumTo(_, _)
@@ -125,28 +138,29 @@ MkFrom(g, x0, unz, plOn) ==
       RR == Total(g.nr)
       T  == Total(g.nt)
       C  == T + Total(g.nte)
-      oF == RR * C                        \* F: K blocks of (up to) 6 rows x 2 columns
-      oU == oF + 12 * K                   \* U: K blocks of 2 x 2
-      oP == oU + 4 * K                    \* power amplitudes
+      oF == RR * C                        \* F: K blocks of (up to) 6 rows x 3 columns
+      oU == oF + 18 * K                   \* U: K blocks of 3 x 3
+      oP == oU + 9 * K                    \* power amplitudes
       oL == oP + K                        \* path-loss amplitudes K x (K + Ke)
       oX == oL + K * (K + Ke)             \* path loss on/off, noise, pe, scale constant
-      s  == Str(x0, oX + 6)
+      s  == Str(x0, oX + 6 + 3 * K)
       am == AmpSets[g.amps]
       pw == PaSets[g.amps]
   IN [ id |-> <<0, 0>>, chain |-> <<>>, step |-> 0, op |-> FreshOp, scr |-> <<>>,
        K |-> K, nr |-> g.nr, nt |-> g.nt, ns |-> g.ns, nte |-> g.nte, jp |-> g.jp,
        H  |-> [i \in 1..RR |-> [j \in 1..C |-> Alpha[Pk(s, (i - 1) * C + j, 6)]]],
        F  |-> [k \in 1..K |-> [a \in 1..(IF g.jp THEN T ELSE g.nt[k]) |-> [b \in 1..g.ns[k] |->
-                  Alpha[Pk(s, oF + (k - 1) * 12 + (a - 1) * 2 + b, 6)]]]],
+                  Alpha[Pk(s, oF + (k - 1) * 18 + (a - 1) * 3 + b, 6)]]]],
        U  |-> [k \in 1..K |-> [a \in 1..g.nr[k] |-> [b \in 1..g.ns[k] |->
-                  IF unz THEN AlphaNZ[Pk(s, oU + (k - 1) * 4 + (a - 1) * 2 + b, 5)]
-                         ELSE Alpha[Pk(s, oU + (k - 1) * 4 + (a - 1) * 2 + b, 6)]]]],
+                  IF unz THEN AlphaNZ[Pk(s, oU + (k - 1) * 9 + (a - 1) * 3 + b, 5)]
+                         ELSE Alpha[Pk(s, oU + (k - 1) * 9 + (a - 1) * 3 + b, 6)]]]],
        pa |-> [k \in 1..K |-> pw[Pk(s, oP + k, Len(pw))]],
        pl |-> IF ~plOn /\ Pk(s, oX + 1, 3) = 1 THEN <<>>
               ELSE [k \in 1..K |-> [j \in 1..(K + Ke) |-> am[Pk(s, oL + (k - 1) * (K + Ke) + j, Len(am))]]],
        noise |-> NoiseTags[Pk(s, oX + 2, 5)], nsc |-> ROne,
        pe |-> IF Ke = 0 THEN ROne ELSE PeSet[Pk(s, oX + 3, Len(PeSet))],
        sc |-> ScSet[Pk(s, oX + 4, Len(ScSet))],
+       scs |-> [k \in 1..K |-> [l \in 1..g.ns[k] |-> ScSet[Pk(s, oX + 6 + (k - 1) * 3 + l, Len(ScSet))]]],   \* one factor per stream
        ga |-> GaSet[Pk(s, oX + 5, Len(GaSet))],
        tn |-> TnSet[Pk(s, oX + 6, Len(TnSet))] ]
 
@@ -156,7 +170,7 @@ MkFrom(g, x0, unz, plOn) ==
 ExhCount == 3888
 MkExh(n) ==
   LET hd == n % 1296
-      s  == Str(Start(0, n), 14)
+      s  == Str(Start(0, n), 16)
       am == AmpSets[2]
       pw == PaSets[2]
   IN [ id |-> <<0, n>>, chain |-> <<>>, step |-> 0, op |-> FreshOp, scr |-> <<>>,
@@ -171,6 +185,7 @@ MkExh(n) ==
        noise |-> NoiseTags[(n \div 1296) + 1], nsc |-> ROne,
        pe |-> ROne,
        sc |-> ScSet[Pk(s, 12, Len(ScSet))],
+       scs |-> [k \in 1..2 |-> <<ScSet[Pk(s, 14 + k, Len(ScSet))]>>],
        ga |-> GaSet[Pk(s, 13, Len(GaSet))],
        tn |-> TnSet[Pk(s, 14, Len(TnSet))] ]
 
@@ -279,21 +294,28 @@ BTab(c, FF)  == BTabT(c, Tb(c, FF))
    the user's own streams).  full_W_H = (W^H H_kk full_F)^-1 W^H; we keep the adjugate form
    Ueff^H = adj(Heq) W^H = det(Heq) * full_W_H  (a non-zero multiple of the filter; the SINR does
    not see the multiple - ScaleInvariant) so that magnitudes stay inside 32-bit integers.        *)
-SolverApplies(c) == ~c.jp /\ c.nte = <<>>
+\* The solver has no argument for the external power: the one power it can mean is pe = 1, the default its own
+\* calc_Q uses (it forwards to the channel's calc_Q).  Its SINR must therefore contain the external interference
+\* with pe = 1.  (Modelled for at most two streams per user: the adjugate of a 3 x 3 Heq leaves 32-bit integers;
+\* `inv` still tells the harness when the compensated filter exists, for the (rel) agreement check.)
+SolverApplies(c) == ~c.jp /\ \A k \in 1..c.K : c.ns[k] <= 2
 Heq(c, FF, k)    == MMul(MHerm(c.U[k]), MMul(HBlk(c, k, k), FF[k]))
 HeqDet(c, FF, k) == MDet(Heq(c, FF, k))
 UeffH(c, FF, k)  == MMul(MAdj(Heq(c, FF, k)), MHerm(c.U[k]))
 UeffTab(c, FF)   == Force([k \in 1..c.K |-> MHerm(UeffH(c, FF, k))])
 SolverInvertible(c, FF) == \A k \in 1..c.K : ~GIsZero(HeqDet(c, FF, k))
 
-NoSol == [ok |-> FALSE, sinr |-> <<>>, det |-> <<>>]
+NoSol == [ok |-> FALSE, sinr |-> <<>>, det |-> <<>>, q1 |-> <<>>, inv |-> FALSE]
 SolOfT(c, tb) ==
-  IF ~SolverApplies(c) THEN NoSol
-  ELSE LET FF == FullF(c)
-       IN IF ~SolverInvertible(c, FF) THEN NoSol
-          ELSE LET pt == PowTabT(c, tb, UeffTab(c, FF), RZero)
-               IN IF ~PowValid(c, pt) THEN NoSol
-                  ELSE [ok |-> TRUE, sinr |-> SinrOfPow(c, pt), det |-> [k \in 1..c.K |-> HeqDet(c, FF, k)]]
+  IF c.jp THEN NoSol
+  ELSE LET FF  == FullF(c)
+           inv == SolverInvertible(c, FF)
+       IN IF ~SolverApplies(c) \/ ~inv THEN [NoSol EXCEPT !.inv = inv]
+          ELSE LET pt == PowTabT(c, tb, UeffTab(c, FF), ROne)
+               IN IF ~PowValid(c, pt) THEN [NoSol EXCEPT !.inv = inv]
+                  ELSE [ok |-> TRUE, sinr |-> SinrOfPow(c, pt), det |-> [k \in 1..c.K |-> HeqDet(c, FF, k)],
+                        q1 |-> IF c.nte = <<>> THEN <<>> ELSE QTabT([c EXCEPT !.pe = ROne], tb),    \* what solver.calc_Q reports
+                        inv |-> TRUE]
 
 SolOf(c) == SolOfT(c, Tb(c, FullF(c)))
 
@@ -309,10 +331,19 @@ SolOf(c) == SolOfT(c, Tb(c, FullF(c)))
      BystanderUnaffected      a second channel / solver object in the same process reports what it reported before
      RejectedChangesNothing   a call refused with an exception leaves the object as it was (chains)
      AliasCoherent            see the aliasing probes (scribble leaves)                                              *)
+\* a REAL solver class can be run on the case: ClosedFormIASolver needs K = 3, square 2 x 2 links that are all invertible
+ClosedFormApplies(c) == /\ c.K = 3 /\ ~c.jp /\ c.nte = <<>>
+                        /\ \A k \in 1..3 : c.nr[k] = 2 /\ c.nt[k] = 2
+                        /\ \A k \in 1..3 : \A j \in 1..3 : ~GIsZero(MDet(HBlk(c, k, j)))
+\*   SolveSelfConsistent        (rel) after solve() of a real solver class its SINR is the SINR of the channel object fed
+\*                              with the solver's own full_F / full_W, its capacity the sum of log2(1 + that)
+\*   RandomizeThenQueryCoherent (rel) after randomize() on the same object (path loss kept) every SINR / Q is the
+\*                              first-principles value for the matrix big_H reports
 Required(c) ==
   <<"ArgumentsUnchanged", "EarlierResultsUnchanged", "ResultsAreCopies", "QueryIsPure", "RepresentationIrrelevant">>
-  \o (IF c.chain # <<>> THEN <<"BystanderUnaffected", "RejectedChangesNothing">> ELSE <<>>)
+  \o (IF c.chain # <<>> THEN <<"BystanderUnaffected", "RejectedChangesNothing", "RandomizeThenQueryCoherent">> ELSE <<>>)
   \o (IF c.op.kind = "scribble" THEN <<"AliasCoherent">> ELSE <<>>)
+  \o (IF ClosedFormApplies(c) THEN <<"SolveSelfConsistent">> ELSE <<>>)
 
 (* everything the harness compares with the real code *)
 \* determinant of a 1 x 1 / 2 x 2 matrix over one common denominator (fraction free: 32-bit integers)
@@ -334,7 +365,11 @@ OutOf(c, pt) ==
        Q |-> q,
        B |-> BTabT(c, tb),
        qtr |-> [k \in 1..c.K |-> GRe(MTrace(q[k]))],
-       qdet |-> [k \in 1..c.K |-> GRe(Det2(q[k]))],
+       qdet |-> [k \in 1..c.K |-> IF c.nr[k] <= 2 THEN GRe(Det2(q[k])) ELSE RZero],     \* (3 x 3: PSD by construction only, QIsSumOfLinks)
+       xcov |-> IF c.nte = <<>> THEN <<>>                                           \* pe * He He^H, the external covariance alone
+                ELSE [k \in 1..c.K |-> [a \in 1..c.nr[k] |-> [b \in 1..c.nr[k] |->
+                        GScaleRat(c.pe, GSumSeq([e \in 1..Len(tb.ex[k]) |-> OuterEl(tb.ex[k][e], a, b)]))]]],
+       cf |-> ClosedFormApplies(c),
        sol |-> SolOfT(c, tb),
        req |-> Required(c) ]
 
@@ -393,7 +428,7 @@ AFullF(c) == [j \in 1..c.K |->
 
 (* ---------------------------------------- the star --------------------------------------------- *)
 VARIABLES inp, out, cache
-vars == <<inp, out, cache>>
+vars == <<inp, out, cache, dv>>
 NoCase == [id |-> <<-1, -1>>, chain |-> <<>>]
 NoOut  == [sinr |-> <<>>]
 \* which inputs the cached quantities of the real objects were computed from
@@ -402,7 +437,7 @@ NoOut  == [sinr |-> <<>>]
 PartOf(c) == <<c.nr, c.nt, c.nte>>
 NoCache == [pa |-> <<>>, part |-> <<>>]
 
-Init == inp = NoCase /\ out = NoOut /\ cache = NoCache
+Init == inp = NoCase /\ out = NoOut /\ cache = NoCache /\ dv \in (IF DevTry = {} THEN {"none"} ELSE {d.name : d \in DevTry})
 
 \* a case on fresh objects
 Pick(ci, n) ==
@@ -414,8 +449,8 @@ Pick(ci, n) ==
          /\ out' = OutOf(c, pt)
          /\ cache' = [pa |-> c.pa, part |-> PartOf(c)]
 
-PickExhaustive == \E n \in Lo..Hi : CLo = 0 /\ n < ExhCount /\ Pick(0, n)
-PickSeeded     == \E ci \in CLo..CHi : \E n \in Lo..Hi : ci > 0 /\ Pick(ci, n)
+PickExhaustive == \E n \in Lo..Hi : CLo = 0 /\ dv = "none" /\ n < ExhCount /\ Pick(0, n)
+PickSeeded     == \E ci \in CLo..CHi : \E n \in Lo..Hi : ci > 0 /\ CfgOk(ci) /\ NumOk(n) /\ Pick(ci, n)
 
 (* ----- chains: consecutive cases on the same channel object and the same solver object ----- *)
 RECURSIVE CountOp(_, _, _)
@@ -501,7 +536,7 @@ Step(a) ==
   /\ inp' = a.c
   /\ out' = OutOf(a.c, a.pt)
   /\ cache' = CacheAfter(a.c)
-ChainStart == \E hi \in HLo..HHi : \E n \in Lo..Hi : inp = NoCase /\ Step(ChainAttempt(inp, hi, n, 1))
+ChainStart == \E hi \in HLo..HHi : \E n \in Lo..Hi : inp = NoCase /\ ChainOk(hi) /\ NumOk(n) /\ Step(ChainAttempt(inp, hi, n, 1))
 ChainStep  == /\ inp # NoCase
               /\ inp.chain # <<>>
               /\ inp.op.kind # "scribble"
@@ -527,7 +562,7 @@ MkCapVec(n) ==
        cv |-> [i \in 1..L |-> LET m == CvMants[Pk(s, 2 * i - 1, Len(CvMants))]
                                IN  <<m[1], m[2], IF hot THEN CvHot[Pk(s, 2 * i, Len(CvHot))] ELSE CvExps[Pk(s, 2 * i, Len(CvExps))]>>] ]
 PickCapVec == \E n \in VLo..VHi :
-                /\ inp = NoCase
+                /\ inp = NoCase /\ dv = "none"
                 /\ inp' = MkCapVec(n)
                 /\ out' = [sinr |-> <<>>, req |-> <<"ArgumentsUnchanged", "CapacityPermutationInvariant", "CapacityAdditive">>]
                 /\ UNCHANGED cache
@@ -535,15 +570,15 @@ CapVecWellFormed == (inp # NoCase /\ inp.op.kind = "capvec") =>
                        /\ inp.cut \in 0..Len(inp.cv)
                        /\ \A i \in 1..Len(inp.cv) : inp.cv[i][1] >= 0 /\ inp.cv[i][2] > 0      \* every 1 + SINR is >= 1
 
-Next == PickExhaustive \/ PickSeeded \/ ChainStart \/ ChainStep \/ ChainLeaf \/ PickCapVec
+Next == (PickExhaustive \/ PickSeeded \/ ChainStart \/ ChainStep \/ ChainLeaf \/ PickCapVec) /\ dv' = dv
 
 Emit == EmitCase([inp |-> inp', out |-> out'])
 
 (* ---------------------------------------- the laws --------------------------------------------- *)
 Has == inp # NoCase /\ inp.op.kind # "capvec"
-Streams(c) == {kl \in (1..c.K) \X (1..2) : kl[2] <= c.ns[kl[1]]}
+Streams(c) == {kl \in (1..c.K) \X (1..3) : kl[2] <= c.ns[kl[1]]}
 
-TypeOK == Has => /\ inp.K \in 2..3 /\ inp.step >= 0 /\ (inp.chain = <<>> <=> inp.step = 0) /\ Len(inp.nr) = inp.K /\ Len(inp.nt) = inp.K /\ Len(inp.ns) = inp.K
+TypeOK == Has => /\ inp.K \in 1..4 /\ inp.step >= 0 /\ (inp.chain = <<>> <=> inp.step = 0) /\ Len(inp.nr) = inp.K /\ Len(inp.nt) = inp.K /\ Len(inp.ns) = inp.K
                  /\ Len(out.sinr) = inp.K
                  /\ \A k \in 1..inp.K : Len(out.sinr[k]) = inp.ns[k]
 
@@ -555,7 +590,8 @@ NonNegative == Has => \A kl \in Streams(inp) :
 CachesFresh == Has => /\ cache.pa = inp.pa
                       /\ inp.pl # <<>> => cache.part = PartOf(inp)
 
-\* The twin case: every receive filter rescaled by the non-zero Gaussian rational inp.sc, every channel gain
+\* The twin case: column l of the receive filter of user k rescaled by the non-zero Gaussian rational inp.scs[k][l]
+\* (ONE FACTOR PER STREAM: a noise term or normalisation shared between the streams of a user would show), every channel gain
 \* (path-loss amplitude, external sources included) by inp.ga and the noise variance by inp.ga^2.
 \* Each of the four power terms is homogeneous - it is multiplied by |sc|^2 ga^2 - so no SINR changes.
 \* Because the terms scale one by one the law extends to factors of any magnitude.
@@ -563,17 +599,18 @@ CachesFresh == Has => /\ cache.pa = inp.pa
 \* sig / (intf + ext + tn * nse) - again for any magnitude of tn (tiny noise: huge but finite SINRs).
 Twin(c) == [c EXCEPT !.pl  = [k \in 1..c.K |-> [j \in 1..(c.K + Len(c.nte)) |-> RMul(c.ga, Amp(c, k, j))]],
                      !.nsc = RMul(RMul(c.nsc, RSq(c.ga)), c.tn),
-                     !.U   = [k \in 1..c.K |-> MScale(c.sc, c.U[k])]]
+                     !.U   = [k \in 1..c.K |-> [a \in 1..c.nr[k] |-> [l \in 1..c.ns[k] |-> GMul(c.scs[k][l], c.U[k][a][l])]]]]
 ScaleInvariant == Has =>
   LET t  == Twin(inp)
       tb == Tb(t, FullF(t))
       pt == PowTabT(t, tb, t.U, t.pe)
-      f  == RMul(GAbs2(inp.sc), RSq(inp.ga))
+      ff(k, l) == RMul(GAbs2(inp.scs[k][l]), RSq(inp.ga))
       nI == [k \in 1..inp.K |-> IF HasNoise(inp) THEN MScale(GFromRat(NoiseOf(inp)), MIdent(inp.nr[k]))
                                                  ELSE MZero(inp.nr[k], inp.nr[k])]
   IN  /\ \A kl \in Streams(inp) :
             LET p == pt[kl[1]][kl[2]]
                 b == out.pow[kl[1]][kl[2]]
+                f == ff(kl[1], kl[2])
             IN  /\ p.sig = RMul(f, b.sig) /\ p.intf = RMul(f, b.intf)
                 /\ p.ext = RMul(f, b.ext) /\ p.nse = RMul(RMul(f, inp.tn), b.nse)
       /\ SinrOfPow(t, pt) = [k \in 1..inp.K |-> [l \in 1..inp.ns[k] |->
@@ -588,7 +625,7 @@ ScaleInvariant == Has =>
 QHermitianPSD == Has => \A k \in 1..inp.K :
                     /\ MIsHerm(out.Q[k])
                     /\ \A a \in 1..inp.nr[k] : out.Q[k][a][a][2] = 0 /\ out.Q[k][a][a][1] >= 0
-                    /\ out.qdet[k][1] >= 0 /\ GIm(Det2(out.Q[k]))[1] = 0
+                    /\ inp.nr[k] <= 2 => (out.qdet[k][1] >= 0 /\ GIm(Det2(out.Q[k]))[1] = 0)
 
 \* Q = SUM over the interfering links A_j A_j^H (A_j = H_kj F_j sqrt(P_j), resp. H_k F_j) + pe * He He^H + sigma^2 I:
 \* a sum of matrices of the form A A^H, hence positive semidefinite by construction
@@ -642,11 +679,11 @@ SolverZeroForcing == (Has /\ out.sol.ok) =>
   \A k \in 1..inp.K :
      MMul(UeffH(inp, FullF(inp), k), MMul(HBlk(inp, k, k), FullF(inp)[k])) = MScale(out.sol.det[k], MIdent(inp.ns[k]))
 \* with one stream the compensation is a scalar: solver and channel object report the same number
-SolverAgrees == (Has /\ out.sol.ok) =>
+SolverAgrees == (Has /\ out.sol.ok /\ (inp.nte = <<>> \/ inp.pe = ROne)) =>
   \A k \in 1..inp.K : inp.ns[k] = 1 =>
      out.sol.sinr[k] = out.sinr[k]
 SolverAlgMatches == (Has /\ out.sol.ok) =>
-  ASinrTab(inp, AFullF(inp), UeffTab(inp, AFullF(inp))) = out.sol.sinr
+  ASinrTab([inp EXCEPT !.pe = IF Dev.SolverIgnoresExtInt THEN RZero ELSE ROne], AFullF(inp), UeffTab(inp, AFullF(inp))) = out.sol.sinr
 
 \* every term of the sum capacity is log2 of a rational >= 1
 CapacityTerms == Has => \A kl \in Streams(inp) :
